@@ -613,6 +613,174 @@ def derivative_block(ctx, torch, g, n_scen, items, metas, family="library"):
             ctx.stats["bs_module:agreed:value_cells"] += 1
 
 
+ARG_NAMES = ("log_moneyness", "max_log_moneyness", "time_to_maturity", "volatility")
+
+
+def partial_block(ctx, torch, g, n_scen, items, metas):
+    """modules bound to a simulated derivative, called with PARTIAL argument lists (round 7): every subset of
+    (log_moneyness, max_log_moneyness, time_to_maturity, volatility) given explicitly, the rest left to be acquired from
+    the derivative, for every module kind (the European kinds take the subset without the running maximum).  The explicit
+    values differ from what the derivative holds: the spot bumped down (a stress scenario), bumped up as far as the recorded
+    maximum allows, one time step handed in as a column (N,1); a higher running maximum, the final one as a column, one exactly
+    at the strike; another time to maturity (scaled, constant column, one element, a row over the steps); another volatility
+    (full shape, one element, column).  The relations of the property are evaluated at the EFFECTIVE point of every cell — the
+    explicit value where one was given, what the derivative records otherwise (spot, running maximum of the spot buffer
+    recomputed here, time to maturity) — on the cells with time to maturity > 0 and running maximum >= spot; the quote must
+    also be the functional at that point.  Six derivatives on one underlier (library classes or user-defined subclasses),
+    modules from BlackScholes(derivative) or <module class>.from_derivative; float32 and float64 markets.  float64 quotes
+    also go to the model: two cells per subset to op bs, one path per subset to the module layer (op bs_module with `given`)."""
+    from pfhedge.instruments import BrownianStock, EuropeanOption, EuropeanBinaryOption, AmericanBinaryOption, LookbackOption
+    from pfhedge.nn import BlackScholes, BSEuropeanOption, BSEuropeanBinaryOption, BSAmericanBinaryOption, BSLookbackOption
+    NAMES = ("c", "p", "bc", "bp", "ab", "lb")
+    KIND = {"c": ("european", "european_price", True), "p": ("european", "european_price", False),
+            "bc": ("european_binary", "european_binary_price", True), "bp": ("european_binary", "european_binary_price", False),
+            "ab": ("american_binary", "american_binary_price", True), "lb": ("lookback", "lookback_price", True)}
+    LIB = {"c": (EuropeanOption, BSEuropeanOption), "p": (EuropeanOption, BSEuropeanOption), "bc": (EuropeanBinaryOption, BSEuropeanBinaryOption),
+           "bp": (EuropeanBinaryOption, BSEuropeanBinaryOption), "ab": (AmericanBinaryOption, BSAmericanBinaryOption), "lb": (LookbackOption, BSLookbackOption)}
+    mod_reqs, mod_metas = [], []
+    for n_sc in range(n_scen):
+        dtype = g.choice([torch.float32, torch.float64])
+        f32 = dtype == torch.float32
+        K = g.choice([0.9, 1.02, 1.05, 1.3, 0.7, 1.0, 2.0, round(g.r.uniform(0.5, 2.0), 2), g.r.uniform(0.3, 3.0)])
+        sigma = g.choice([0.2, 0.3, 0.4, round(g.r.uniform(0.1, 0.8), 2)])
+        dt = g.choice([1 / 250, 1 / 365, 0.01])
+        n_steps, n_paths = g.randint(2, 6), g.randint(1, 4)
+        N, T = n_paths, n_steps + 1
+        maturity = n_steps * dt
+        start = g.weighted([("at-strike", 4), ("below", 3), ("above", 2)]) if n_sc else "at-strike"
+        init = K * {"at-strike": 1.0, "below": g.choice([0.999, 0.98, 0.9]), "above": g.choice([1.001, 1.05])}[start]
+        tseed = g.randint(0, 10 ** 6)
+        family = g.choice(["library", "subclass"])
+        built = g.choice(["BlackScholes", "from_derivative"]) if family == "library" else "BlackScholes"
+        cls_of = {nm: LIB[nm][0] for nm in NAMES}
+        if family == "subclass":
+            slots, _names = user_classes()
+            for nm in ("ab", "lb", g.choice(["c", "bc", "p", "bp"])):
+                cls_of[nm] = g.choice(slots[nm])[0]
+        case0 = {"kind": "partial-arguments", "dtype": str(dtype), "strike": K, "sigma": sigma, "dt": dt, "n_steps": n_steps, "start": start, "init_state": init,
+                 "n_paths": n_paths, "torch_seed": tseed, "built": built, "classes": {nm: cls_of[nm].__name__ for nm in NAMES}}
+        stock = BrownianStock(sigma=sigma, dt=dt).to(dtype)
+        ders = {nm: (cls_of[nm](stock, strike=K, maturity=maturity) if nm in ("ab", "lb") else cls_of[nm](stock, call=KIND[nm][2], strike=K, maturity=maturity))
+                for nm in NAMES}
+        torch.manual_seed(tseed)
+        stock.simulate(n_paths=n_paths, time_horizon=maturity, init_state=(init,))
+        if tuple(stock.spot.shape) != (N, T) or stock.spot.dtype != dtype:
+            raise InternalError(f"scenario construction: spot {tuple(stock.spot.shape)} {stock.spot.dtype}, expected {(N, T)} {dtype}")
+        mods = {nm: (BlackScholes(ders[nm]) if built == "BlackScholes" else LIB[nm][1].from_derivative(ders[nm])) for nm in NAMES}
+        Kd = float(torch.tensor(K, dtype=dtype))
+        spot = stock.spot.clone()
+        rmax = spot.cummax(dim=-1).values
+        # what the derivative documents to hand to the formula: log(S/K), log(running max/K), time to maturity, the volatility of the underlier
+        own = {"log_moneyness": (spot / K).log(), "max_log_moneyness": (rmax / K).log(),
+               "time_to_maturity": ders["ab"].time_to_maturity().clone(), "volatility": torch.full((N, T), sigma, dtype=dtype)}
+        mk = lambda x: torch.tensor(x, dtype=dtype)
+        for bits in range(16):
+            G = [a for i, a in enumerate(ARG_NAMES) if bits >> i & 1]
+            how, given = {}, {}
+            if "log_moneyness" in G:
+                how["log_moneyness"] = h = g.weighted([("bumped-down", 4), ("one-step-column", 3), ("bumped-up-to-max", 2), ("own", 1)]) if bits != 1 or n_sc > 1 \
+                    else ("bumped-down", "one-step-column")[n_sc]
+                b = g.choice([0.08, 0.3, 1e-3, 0.02])
+                s0 = own["log_moneyness"]
+                given["log_moneyness"] = {"bumped-down": lambda: s0 - b, "one-step-column": lambda: s0[:, [g.randint(0, T - 1)]] - g.choice([0.0, b]),
+                                          "bumped-up-to-max": lambda: torch.minimum(s0 + b, own["max_log_moneyness"]), "own": lambda: s0.clone()}[h]()
+            if "max_log_moneyness" in G:
+                how["max_log_moneyness"] = h = g.weighted([("higher", 4), ("final-column", 2), ("at-strike", 2), ("own", 1)])
+                m0 = own["max_log_moneyness"]
+                given["max_log_moneyness"] = {"higher": lambda: m0 + g.choice([0.1, 0.5, 1e-3]), "final-column": lambda: m0[:, [T - 1]].clone(),
+                                              "at-strike": lambda: torch.zeros(N, 1, dtype=dtype), "own": lambda: m0.clone()}[h]()
+            if "time_to_maturity" in G:
+                how["time_to_maturity"] = h = g.choice(["scaled", "column", "one-element", "row"])
+                tau = g.choice([0.1, 0.25, 1.0, round(g.r.uniform(0.01, 2.0), 3)])
+                given["time_to_maturity"] = {"scaled": lambda: own["time_to_maturity"] * g.choice([0.5, 2.0, 10.0]), "column": lambda: torch.full((N, 1), tau, dtype=dtype),
+                                             "one-element": lambda: mk([tau]), "row": lambda: mk([tau * (T - j) / T for j in range(T)])}[h]()
+            if "volatility" in G:
+                how["volatility"] = h = g.choice(["full", "one-element", "column"])
+                sig2 = g.choice([0.1, 0.25, 0.5, round(g.r.uniform(0.05, 1.0), 2)])
+                given["volatility"] = {"full": lambda: torch.full((N, T), sig2, dtype=dtype), "one-element": lambda: mk([sig2]), "column": lambda: torch.full((N, 1), sig2, dtype=dtype)}[h]()
+            eff = {a: torch.broadcast_to(given[a] if a in given else own[a], (N, T)).to(torch.float64) for a in ARG_NAMES}
+            # the effective point in price units: exact spot / running maximum of the buffer where the derivative is asked
+            S_ = spot.to(torch.float64) if "log_moneyness" not in given else K * eff["log_moneyness"].exp()
+            M_ = rmax.to(torch.float64) if "max_log_moneyness" not in given else K * eff["max_log_moneyness"].exp()
+            reached = (rmax.to(torch.float64) >= Kd) if "max_log_moneyness" not in given else (eff["max_log_moneyness"] >= 0)
+            live = [(i, j) for i in range(N) for j in range(T) if float(eff["time_to_maturity"][i, j]) > 0
+                    and float(eff["max_log_moneyness"][i, j]) >= float(eff["log_moneyness"][i, j])]
+            forgets = any(float(M_[i, j]) > float(S_[i, j]) and bool(reached[i, j]) for i, j in live)      # history that the current spot does not show
+            case = case0 | {"given": {a: {"how": how[a], "shape": list(given[a].shape), "values": given[a].tolist()} for a in G},
+                            "acquired": [a for a in ARG_NAMES if a not in G], "spot": spot.tolist()}
+            ctx.case(case, bool(live) and 0 < bits < 15, tag="partial-arguments")
+            ctx.stats[f"partial given={len(G)}"] += 1
+            ctx.stats["partial live cells with a recorded barrier hit above the spot" if forgets else "partial other"] += 1
+            ctx.traces += 1
+            pr, ok = {}, True
+            for nm in NAMES:
+                kind, fn, call = KIND[nm]
+                kw = {a: x for a, x in given.items() if a != "max_log_moneyness" or nm in ("ab", "lb")}
+                want = tuple(torch.broadcast_shapes(*[tuple(kw[a].shape) if a in kw else (N, T) for a in ARG_NAMES if a != "max_log_moneyness" or nm in ("ab", "lb")]))
+                st, val, mut = call_impl(lambda: mods[nm].price(**kw), watch=list(kw.items()))
+                if mut:
+                    ctx.mutated(f"{type(mods[nm]).__name__}.price", mut, case | {"derivative": nm})
+                if st != "ok" or tuple(val.shape) != want:
+                    ctx.fail("a Black-Scholes module bound to a simulated derivative raised / returned another shape than the broadcast of its inputs when it was called with "
+                             "some arguments given and the rest left to be acquired from the derivative", case | {"derivative": nm, "passed": sorted(kw)},
+                             key=f"partial:{kind}:price-call", detail=str(val)[:300] if st != "ok" else {"got": list(val.shape), "expected": list(want)})
+                    ok = False
+                    break
+                pr[nm] = torch.broadcast_to(val.detach(), (N, T)).to(torch.float64)
+                # the quote is the functional at the effective point
+                e = [torch.broadcast_to(given[a] if a in given else own[a], (N, T)) for a in ARG_NAMES]
+                ref = call_bs(torch, fn, e[0], e[2], e[3], K, e[1], call).to(torch.float64)
+                for i, j in live:
+                    if not rel_close(float(pr[nm][i, j]), float(ref[i, j]), 2e-5 if f32 else 1e-10, 2e-6 if f32 else 1e-12):
+                        ctx.fail("a Black-Scholes module bound to a simulated derivative, called with some arguments given and the rest acquired, does not quote the price at "
+                                 "(explicit values where given, what the derivative records otherwise)", case | {"derivative": nm, "passed": sorted(kw), "path": i, "step": j,
+                                 "effective": {a: float(eff[a][i, j]) for a in ARG_NAMES}},
+                                 key=f"partial:{kind}:differs-from-functional", detail={"module": float(pr[nm][i, j]), "functional_at_effective_point": float(ref[i, j])})
+                        break
+            if not ok:
+                continue
+            tol = dict(eps=2e-5, par=2e-5, binpar=2e-6) if f32 else {}
+            for i, j in live:
+                def bad(what, key, **d):
+                    ctx.fail(what + " (module bound to a simulated derivative, called with " + (", ".join(G) or "nothing") + " given explicitly and the rest acquired from the derivative)",
+                             case | {"path": i, "step": j, "effective": {a: float(eff[a][i, j]) for a in ARG_NAMES}, "strike_in_dtype": Kd}, key=key, detail=d)
+                point_relations(bad, "partial:", float(S_[i, j]), K, float(M_[i, j]), bool(reached[i, j]), *(float(pr[nm][i, j]) for nm in NAMES), **tol)
+            if f32 or not live:
+                continue
+            for i, j in [g.choice(live) for _p in range(2)]:
+                e = [float(eff["log_moneyness"][i, j]), float(eff["time_to_maturity"][i, j]), float(eff["volatility"][i, j]), K, float(eff["max_log_moneyness"][i, j])]
+                for nm in ("c", "p", "bc", "ab", "lb"):
+                    items.append((KIND[nm][1], KIND[nm][2], e))
+                    metas.append((case0 | {"given": sorted(G), "path": i, "step": j, "fn": KIND[nm][1], "call": KIND[nm][2], "args": e}, float(pr[nm][i, j])))
+            i = g.choice(live)[0]
+            cells, row = [j for (i2, j) in live if i2 == i], [float(x) for x in spot[i]]
+            mkt = {"spot": enc_flt(row), "variance": enc_flt([sigma * sigma] * T), "volatility": enc_flt([float(x) for x in stock.volatility[i]]),
+                   "listed": enc_flt(row), "dt": float_bits(dt), "strike": float_bits(K), "oracle": enc_flt([0.0] * T)}
+            for nm in NAMES:
+                mod_reqs.append({"op": "bs_module", "kind": KIND[nm][0], "method": "price", "build": "from_derivative", "cells": cells,
+                                 "given": {a: enc_flt([float(x) for x in eff[a][i]]) for a in G if a != "max_log_moneyness" or nm in ("ab", "lb")},
+                                 "derivative": {"market": mkt, "call": KIND[nm][2], "simulated": True, "has_vol": True}})
+                mod_metas.append((case0 | {"given": {a: eff[a][i].tolist() for a in G}, "spot_path": row, "path": i, "derivative": nm, "steps": cells},
+                                  [float(pr[nm][i, j]) for j in cells], bool(getattr(mods[nm], "call", True)), float(mods[nm].strike)))
+    try:
+        outs = ctx.driver(mod_reqs) if mod_reqs else []
+    except DriverBroken as e:
+        ctx.ties_broken.append({"kind": "driver", "detail": str(e)[:1500]})
+        outs = []
+    for (mcase, vals, call, strike), r in zip(mod_metas, outs):
+        con = r.get("construct", {}).get("ok")
+        if con is None or con["call"] != call or con["strike"] != float_bits(strike):
+            ctx.disagree("bs_module:construct", mcase, [call, strike], r.get("construct", r))
+            continue
+        ctx.evaluations += 1
+        for j, got, cell in zip(mcase["steps"], vals, r["cells"]):
+            mv = cell["value"]
+            if "ok" not in mv or not rel_close(got, float_of_bits(mv["ok"]), 1e-9, 1e-11):
+                ctx.disagree("bs_module:value", mcase | {"step": j}, got, mv | {"resolved": cell["resolved"]})
+                break
+            ctx.stats["bs_module:agreed:partial_value_cells"] += 1
+
+
 def check(ctx):
     torch, pfhedge = import_impl()
     g = ctx.gen
@@ -700,6 +868,7 @@ def check(ctx):
     batched_block(ctx, torch, g, 48 if ctx.tier == "quick" else 400, layouts=MAX_LAYOUTS, items=items, metas=metas)
     derivative_block(ctx, torch, g, 80 if ctx.tier == "quick" else 600, items, metas)
     derivative_block(ctx, torch, g, 32 if ctx.tier == "quick" else 250, items, metas, family="subclass")
+    partial_block(ctx, torch, g, 8 if ctx.tier == "quick" else 60, items, metas)
     try:
         mv = model_vals(ctx, items)
     except DriverBroken as e:
